@@ -190,9 +190,37 @@ class PartialObj:
         return 'Partial%d' % self.n
 
 
+def _src_snap(sig):
+    s = getattr(sig, 'sources', None)
+    if not isinstance(s, dict):
+        return None
+    return {k: (dict(v) if isinstance(v, dict) else list(v)) for k, v in s.items()}
+
+
 def real(req, plain=False):
+    """the real operation; for the algebra, additionally: the provenance of the *input* signatures (signatures that were
+    returned earlier) must be what it was before the call -- otherwise the answer carries the flag input-mutated,
+    which the model never produces"""
     op = req[0]
-    mk = partial(core.mk_sig, plain=plain)
+    if op in ('merge', 'embed', 'mask', 'maskp', 'forwards'):
+        made = []
+
+        def mk(d, _mk=partial(core.mk_sig, plain=plain)):
+            sg = _mk(d)
+            made.append((sg, _src_snap(sg)))
+            return sg
+        a = _real(req, plain, mk)
+        if any(_src_snap(sg) != snap for sg, snap in made):
+            if a[0] == 'ok':
+                a = a[:6] + (tuple(a[6]) + ('input-mutated',),)
+            else:
+                a = ('err', a[1] + '+input-mutated')
+        return a
+    return _real(req, plain, partial(core.mk_sig, plain=plain))
+
+
+def _real(req, plain, mk):
+    op = req[0]
     if op == 'merge':
         sigs = [mk(d) for d in req[1]]
         return core.run_real(signatures.merge, *sigs)
@@ -265,7 +293,7 @@ def proj_prov(a):
         return a
     if a[0] == 'err':
         return ('err',)
-    return ('ok', tuple(p[0] for p in a[1]), a[2], a[3], tuple(f for f in a[6] if f in ('no-sources', 'no-depths')))
+    return ('ok', tuple(p[0] for p in a[1]), a[2], a[3], tuple(f for f in a[6] if f in ('no-sources', 'no-depths', 'input-mutated')))
 
 
 def proj_uann(a):
